@@ -8,7 +8,56 @@ resolvers and must give the tree the generator intended. A disagreement is a mac
 (exit 2): it would mean the generator claims a value that an independent YAML reader does not see.
 """
 import json, os, re, time
-import common
+import common, batch
+
+CLI_SLICE = {"quick": 8, "thorough": 12}       # of the dumped slice, keep 1 line in N for the CLI side
+
+
+def cli_slice(path, tier, rep):
+    """`succinctly yq -o json -I 0 .` on a slice of the explored documents: one JSON line per document,
+    equal to the generator's tree. A document the LIBRARY side already mis-loads is reported under the
+    library's signature (prefixed cli:), so one root cause keeps one name."""
+    with open(path) as f:
+        rows = [l.split("\t") for l in f.read().split("\n") if l]
+    rows = rows[::CLI_SLICE[tier]]
+    jobs = [(["yq", "-o", "json", "-I", "0", "."], bytes.fromhex(r[0])) for r in rows]
+    res = batch.runbatch(jobs, tag="c14")
+    confirmed = batch.selftest(jobs, res, n=40)
+    sub = {"inputs": 0, "evaluations": 0, "states": 0, "transitions": 0, "exhaustive": True,
+           "note": f"every {CLI_SLICE[tier]}-th document of the hash-selected slice (1 in {SLICE[tier]}) of the library exploration through the real yq runner"}
+    fails = {}
+    seen_sig = {}
+    for (hx, exp, libsig), job, r in zip(rows, jobs, res):
+        sub["inputs"] += 1; sub["transitions"] += 1; sub["evaluations"] += 1
+        want = json.loads(exp)
+        def parse(rr):
+            if rr[0] != "0":
+                return None
+            try:
+                return [json.loads(l) for l in rr[1].decode().split("\n") if l]
+            except Exception:  # noqa
+                return None
+        got = parse(r)
+        if got is not None and json.dumps(got) == json.dumps(want):
+            continue
+        sig = "cli:" + (libsig if libsig != "-" else ("yq-o-json:crash" if batch.crashed(r[0]) else "yq-o-json:value-differs-from-tree-but-library-agrees"))
+        if seen_sig.get(sig, 0) < 3:
+            same, real = batch.confirm(job, r)
+            got2 = parse(real)
+            if got2 is not None and json.dumps(got2) == json.dumps(want):
+                raise common.Machinery(f"batch result not reproduced by a real process for {job[1]!r}")
+            seen_sig[sig] = seen_sig.get(sig, 0) + 1
+        e = fails.setdefault(sig, {"signature": sig, "count": 0, "example": None, "size": 1 << 60})
+        e["count"] += 1
+        if len(job[1]) < e["size"]:
+            e["size"] = len(job[1])
+            e["example"] = dict(batch.job_example(job, r), expected_documents=want, signature_hint=sig)
+    rep.setdefault("subspaces", {})["cli/yq-o-json"] = sub
+    rep["states"] += sub["inputs"]; rep["transitions"] += sub["transitions"]; rep["evaluations"] += sub["evaluations"]
+    for e in fails.values():
+        e.pop("size")
+        rep["failures"].append(e)
+    rep.setdefault("extra", {})["cli_batch_jobs_confirmed_by_real_spawns"] = confirmed
 
 SLICE = {"quick": 40, "thorough": 96}          # keep 1 case in N (by hash of the document)
 
@@ -38,7 +87,7 @@ def _check_line(line):
     if _L is None:
         _L = _loader()
     yaml, loader = _L
-    hx, exp = line.split("\t")
+    hx, exp = line.split("\t")[:2]
     doc = bytes.fromhex(hx).decode("utf8")
     want = json.loads(exp)
     try:
@@ -79,6 +128,20 @@ def run(ctx):
     tier = ctx["tier"]
     path = common.build_bin("c14")
     if ctx["replay"]:
+        case = json.load(open(ctx["replay"])).get("case") or {}
+        if case.get("kind") == "cli":
+            rep = batch.Report(); rep.space("replay"); rep.input(); rep.trans(2)
+            job = (case["argv"], bytes.fromhex(case["stdin_hex"]))
+            r1, r2 = batch.spawn(*job), batch.spawn(*job)
+            if r1 != r2:
+                raise common.Machinery("replay not deterministic")
+            try:
+                got = [json.loads(l) for l in r1[1].decode().split("\n") if l] if r1[0] == "0" else None
+            except Exception:  # noqa
+                got = None
+            if got is None or json.dumps(got) != json.dumps(case["expected_documents"]):
+                rep.fail(case.get("signature_hint", "cli:yq-o-json:value-differs-from-tree"), 0, case)
+            return rep.to_json()
         return common.run_bin(path, tier, ctx["replay"])
     d = os.path.join(common.CACHE, "cases")
     os.makedirs(d, exist_ok=True)
@@ -87,6 +150,7 @@ def run(ctx):
         rep = common.run_bin(path, tier, extra_args=["--dump-cases", dump, "--dump-mod", str(SLICE[tier])],
                              timeout=600 if tier == "quick" else 3000)
         rep.setdefault("extra", {})["emitter_selftest"] = emitter_selftest(dump)
+        cli_slice(dump, tier, rep)
     finally:
         try:
             os.remove(dump)
